@@ -1,0 +1,85 @@
+//go:build verif
+
+package rewriter
+
+import (
+	"fmt"
+	"log"
+	"path/filepath"
+	"runtime/debug"
+	"strings"
+
+	"github.com/goghcrow/go-ast-matcher"
+	"github.com/goghcrow/go-imports"
+	"github.com/goghcrow/go-loader"
+	"github.com/goghcrow/go-matcher"
+)
+
+// VerifEvent reports a panic raised while one file was being processed.
+type VerifEvent struct {
+	Stage   string // rewrite | optimize
+	File    string
+	Message string
+	Stack   string
+}
+
+// VerifCompile runs the same two stages as Compile, built from the same unexported pieces, with
+// two differences needed by the verification harness: the intermediate (unoptimised) directory is
+// the caller's keepTmpDir and is not removed, and a panic is recovered per file and reported
+// instead of aborting the whole batch.
+func VerifCompile(srcDir, dstDir, keepTmpDir string, report func(VerifEvent), opts ...loader.Option) {
+	srcDir, err := filepath.Abs(srcDir)
+	panicIf(err)
+	dstDir = mustMkDir(dstDir)
+	tmpOutputDir := mustMkDir(keepTmpDir)
+
+	guard := func(stage, file string, f func()) {
+		defer func() {
+			if e := recover(); e != nil {
+				report(VerifEvent{Stage: stage, File: file, Message: fmt.Sprint(e), Stack: string(debug.Stack())})
+			}
+		}()
+		f()
+	}
+
+	resetLog()
+	log.SetPrefix("[rewrite] ")
+	r := mkRewriter(astmatcher.New(
+		loader.MustNew(srcDir, append(opts, loader.WithLoadDepts())...),
+		matcher.New(),
+	))
+	comment := fmt.Sprintf(fileComment, defaultBuildTag)
+	if coPkg := r.m.Loader.LookupPackage(pkgCoPath); coPkg != nil {
+		r.m.Loader.VisitAllFiles(func(f *loader.File) {
+			if !imports.Uses(f, coPkg.Types) {
+				return
+			}
+			guard("rewrite", f.Filename, func() {
+				r.rewriteFile(f, func(filename string, f *loader.File) {
+					filename = strings.ReplaceAll(filename, srcDir, tmpOutputDir)
+					f.WriteWithComment(filename, comment)
+				})
+			})
+		})
+	}
+
+	log.SetPrefix("[optimize] ")
+	o := mkOptimizer(astmatcher.New(
+		loader.MustNew(tmpOutputDir, append(opts, loader.WithLoadDepts(), loader.WithSuppressErrors())...),
+		matcher.New(),
+	))
+	if seqPkg := o.m.Loader.LookupPackage(pkgSeqPath); seqPkg != nil {
+		o.m.Loader.VisitAllFiles(func(f *loader.File) {
+			if !imports.Uses(f, seqPkg.Types) {
+				return
+			}
+			guard("optimize", f.Filename, func() {
+				o.optimizeImports(f)
+				o.optimizeDelayCall()
+				o.etaReduction()
+				filename := strings.ReplaceAll(f.Filename, tmpOutputDir, dstDir)
+				f.WriteWithComment(filename, comment)
+			})
+		})
+	}
+}
